@@ -162,7 +162,6 @@ def effective(out):
 def run(ctx):
     t0 = time.time()
     bindir = vlib.build_harness(True, bins=["lspdrive"])
-    bindir_off = vlib.build_harness(False, bins=["lspdrive"])
     fails = vlib.proof_step(ctx, "TG.Props.C08", THEOREMS, ["props/C08.vo"], trusted_base=TRUSTED, translators=[])
     exe = vlib.build_model("server")
     t_setup = time.time() - t0
@@ -180,8 +179,9 @@ def run(ctx):
         controlled = one + dg + two_task_schedules(rng, 400)
         bursts = burst_sessions(rng, 150)
 
+    # the hooks-off binary (production configuration) is built only when the hooks-on sessions found nothing
     sessions = [("controlled", s, bindir) for s in controlled] + [("burst", s, bindir) for s in bursts] + \
-               [("burst-hooks-off", s, bindir_off) for s in bursts]
+               [("burst-hooks-off", s, None) for s in bursts]
     # run in batches so that a tree that deadlocks everywhere does not cost (sessions x watchdog)
     found = []
     stats = {"controlled": 0, "burst": 0, "burst-hooks-off": 0, "holds_effective": 0, "traces_checked": 0,
@@ -194,6 +194,9 @@ def run(ctx):
         if len(found) >= 3:
             break
         chunk = sessions[b:b + batch]
+        if any(c[2] is None for c in chunk):
+            bindir_off = vlib.build_harness(False, bins=["lspdrive"])
+            chunk = [(c[0], c[1], bindir_off if c[2] is None else c[2]) for c in chunk]
         outs = {}
         for bd in {c[2] for c in chunk}:
             idx = [i for i, c in enumerate(chunk) if c[2] == bd]
